@@ -515,6 +515,10 @@ def manage_session(sid, rec, rng):
             u = {"kind": "remove", "rules": [], "names": ["zz", "r2"]}
         elif op == "removeNone":
             u = {"kind": "remove", "rules": [], "names": []}
+        elif op == "removeTwo":
+            # two installed rules in one call, the one that runs first named first (a rule may stand behind them)
+            order = sorted(cur, key=lambda n: (-code_of(cur[n]), n))
+            u = {"kind": "remove", "rules": [], "names": order[:2]}
         elif op == "clear":
             u = {"kind": "clear", "rules": [], "names": []}
         elif op in ("badfull", "badincr"):
@@ -553,7 +557,7 @@ def check_c16(run):
         recs = rng.sample(recs, 3615)
     sessions = [manage_session(i + 1, r, rng) for i, r in enumerate(recs)]
     # longer random sequences on bigger pools
-    ops = ["fullA", "fullB", "incrNew", "incrRepl", "incrSal", "removeHas", "removeAbsent", "removeNone", "clear",
+    ops = ["fullA", "fullB", "incrNew", "incrRepl", "incrSal", "removeHas", "removeAbsent", "removeNone", "removeTwo", "clear",
            "model2", "model3", "model4", "model9", "badfull", "badincr"]
     for i in range(60 if quick else 1200):
         mn = rng.randint(1, 3)
@@ -588,7 +592,7 @@ def check_c16(run):
                         "rule descriptions carry the body tag, saliences are a fixed function of the tag"]
     return run.finish("model_checking",
                       "histories = every sequence of <=2 (thorough 3) management operations over {full A, full B, incremental new / replace / "
-                      "changed salience, remove present / absent / no names, clear, set model 2 3 4 9, failing full / incremental text} enumerated "
+                      "changed salience, remove present / absent / no names / two at once, clear, set model 2 3 4 9, failing full / incremental text} enumerated "
                       "by TLC on a (1,2) pool, plus seeded random sequences of 3-7 operations on pools up to (3,6); after EVERY operation all "
                       "queries are asked and one execution is forced onto every instance")
 
